@@ -45,14 +45,14 @@ theorem allW_node_of {k : Kind} {w : Bool} {xs : Items} (h : allW (.node k w xs)
 theorem allW_node_w {k : Kind} {w : Bool} {xs : Items} (h : allW (.node k w xs) = true) (hk : k ≠ .tup) : w = true := by
   cases k <;> simp_all [allW]
 
-theorem allW_node_mk {k : Kind} {w : Bool} {xs : Items} (hw : k ≠ .tup → w = true) (h : allWL xs = true) :
-    allW (.node k w xs) = true := by
+theorem allW_node_mk {k : Kind} {w : Bool} {xs : Items} (hw : k ≠ .tup → w = true) (h : allWL xs = true)
+    (hf : k ≠ .flist ∧ k ≠ .fdict := by decide) : allW (.node k w xs) = true := by
   cases k <;> simp_all [allW]
 
 /-! ### `make` -/
 
 /-- with a `make` that wraps tuples, whatever is handed in comes out fully wrapped -/
-theorem make_allW (cfg : Cfg) (h : cfg.makeTuple = true) (t : T) : allW (make cfg t) = true := by
+theorem make_allW (cfg : Cfg) (h : cfg.makeTuple = true) (hr : cfg.rebinds = true) (t : T) : allW (make cfg t) = true := by
   induction t using T.ind with
   | ha a => simp [make, allW]
   | hn k w xs ih =>
@@ -65,7 +65,7 @@ theorem make_allW (cfg : Cfg) (h : cfg.makeTuple = true) (t : T) : allW (make cf
       | tup =>
           have h' : cfg.tupleMode ≠ .leave := by simpa [Cfg.makeTuple] using h
           cases hm : cfg.tupleMode <;> simp_all [make, allW]
-      | _ => simp [make, allW, hl]
+      | _ => simp [make, allW, hl, hr]
 
 /-- a value without tuples (ordinary JSON: dict / list / scalars) comes out fully wrapped, whatever `make` does to tuples -/
 theorem make_allW_of_tupFree (cfg : Cfg) (t : T) (ht : tupFree t = true) : allW (make cfg t) = true := by
@@ -74,6 +74,8 @@ theorem make_allW_of_tupFree (cfg : Cfg) (t : T) (ht : tupFree t = true) : allW 
   | hn k w xs ih =>
       cases k with
       | tup => simp [tupFree] at ht
+      | flist => simp [tupFree] at ht
+      | fdict => simp [tupFree] at ht
       | _ =>
         all_goals
           have hx : tupFreeL xs = true := by simpa [tupFree] using ht
@@ -408,6 +410,8 @@ theorem applyL_sound {cfg : Cfg} (hc : cfg.covers = true) {m : LMut} {t t' : T} 
           · cases h
     | dict => simp [applyL] at h
     | tup => simp [applyL] at h
+    | flist => simp [allW] at ht
+    | fdict => simp [allW] at ht
 
 theorem applyD_sound {cfg : Cfg} (hc : cfg.covers = true) {m : DMut} {t t' : T} {n : Bool}
     (ht : allW t = true) (ha : (m.prep cfg).args.all allW = true) (h : applyD cfg m t = .ok (t', n)) :
@@ -431,6 +435,8 @@ theorem applyD_sound {cfg : Cfg} (hc : cfg.covers = true) {m : DMut} {t t' : T} 
     | iarr => simp [applyD] at h
     | sarr => simp [applyD] at h
     | tup => simp [applyD] at h
+    | flist => simp [allW] at ht
+    | fdict => simp [allW] at ht
 
 /-! ### navigation -/
 
@@ -518,6 +524,8 @@ theorem isPlain_tupFree (t : T) (h : isPlain t = true) : tupFree t = true := by
   | hn k w xs ih =>
       cases k with
       | tup => simp [isPlain] at h
+      | flist => simp [isPlain] at h
+      | fdict => simp [isPlain] at h
       | _ =>
         all_goals
           have hx : isPlainL xs = true := by
@@ -534,6 +542,8 @@ theorem ser_make (cfg : Cfg) (t : T) (h : isPlain t = true) : ser (make cfg t) =
   | hn k w xs ih =>
       cases k with
       | tup => simp [isPlain] at h
+      | flist => simp [isPlain] at h
+      | fdict => simp [isPlain] at h
       | _ =>
         all_goals
           have h' := h
@@ -590,6 +600,8 @@ theorem applyL_notifies {cfg : Cfg} (hc : cfg.covers = true) {m : LMut} {t t' : 
           · cases h
     | dict => simp [applyL] at h
     | tup => simp [applyL] at h
+    | flist => simp [allW] at ht
+    | fdict => simp [allW] at ht
 
 theorem applyD_notifies {cfg : Cfg} (hc : cfg.covers = true) {m : DMut} {t t' : T} {n : Bool}
     (ht : allW t = true) (h : applyD cfg m t = .ok (t', n)) : n = true := by
@@ -608,6 +620,8 @@ theorem applyD_notifies {cfg : Cfg} (hc : cfg.covers = true) {m : DMut} {t t' : 
     | iarr => simp [applyD] at h
     | sarr => simp [applyD] at h
     | tup => simp [applyD] at h
+    | flist => simp [allW] at ht
+    | fdict => simp [allW] at ht
 
 theorem modAt_notifies {f : T → Except (Err × Bool) (T × Bool)}
     (hf : ∀ t t' n, allW t = true → f t = .ok (t', n) → n = true) :
